@@ -40,7 +40,7 @@ def handleLine (line : String) : String :=
     | "c01s" => Req.handleSeq args obs
     | "c02" => Req.handleC02 args obs
     | "c03" => Req.handleC03 args obs
-    | "c04" | "c09" | "c10" => C04.handle args obs
+    | "c04" | "c09" | "c10" => C04.handle suite args obs
     | "c05" => C05.handle args obs
     | "c06" => C06.handleC06 args obs
     | "c08" => C06.handleC08 args obs
